@@ -8,8 +8,10 @@
    revoke_token), server/oauth2/token_helper/{__init__,access_token,refresh_token}.py,
    server/oidc/token_helper/{access_token,refresh_token}.py, server/oauth2/token.py,
    server/oidc/userinfo.py, server/oauth2/introspection.py, server/oauth2/token_revocation.py,
-   server/session/manager.py (revoke_token, revoke_grant, revoke_client_session),
-   server/session/grant_manager.py (_revoke_tree), server/authz (AuthzHandling.__call__).
+   server/session/manager.py (revoke_token, revoke_grant, revoke_client_session, remove_session),
+   server/session/grant_manager.py (_revoke_tree, revoke_sub_tree, remove_branch), server/session/database.py
+   (delete: a removed grant leaves the database, the nodes above it go with it once they have no other subordinate),
+   server/authz (AuthzHandling.__call__).
 
    Hand-written, executable; tied to the code by harness/sess.py + the drivers of C02/C03/C05
    (the model's outcome of every operation and the whole session state are compared with the real
@@ -32,7 +34,9 @@ Record token := mkTok {
 
 Record grant := mkGrant {
   g_user : pystr; g_client : pystr; g_revoked : bool; g_exp : Z; g_scope : list pystr;
-  g_areq_scope : list pystr; g_redirect : pystr; g_valid_until : Z }.
+  g_areq_scope : list pystr; g_redirect : pystr; g_valid_until : Z;
+  g_removed : bool }.                  (* SessionManager.remove_session: the grant is no longer in the database; the
+                                          harness keeps the last object, so its fields stay comparable *)
 
 (* a parsed token request waiting to be processed (what Endpoint.parse_request returned) *)
 Inductive err := EInvalidGrant | EInvalidRequest | EInvalidToken | EOther.
@@ -100,7 +104,9 @@ Definition add_used (d : Z) (t : token) : token :=
 Definition revoke_t (t : token) : token :=
   mkTok (t_grant t) (t_cls t) (t_based t) (t_used t) (t_max t) (t_mints t) true (t_exp t) (t_scope t).
 Definition revoke_g (g : grant) : grant :=      (* Grant.revoke() *)
-  mkGrant (g_user g) (g_client g) true (g_exp g) (g_scope g) (g_areq_scope g) (g_redirect g) (g_valid_until g).
+  mkGrant (g_user g) (g_client g) true (g_exp g) (g_scope g) (g_areq_scope g) (g_redirect g) (g_valid_until g) (g_removed g).
+Definition remove_g (g : grant) : grant :=      (* Database.delete of the leaf *)
+  mkGrant (g_user g) (g_client g) (g_revoked g) (g_exp g) (g_scope g) (g_areq_scope g) (g_redirect g) (g_valid_until g) true.
 (* _revoke_tree on a grant: Grant.revoke() + Grant.revoke_token() (every issued token) *)
 Definition revoke_grant_at (gi : nat) (s : st) : st :=
   map_toks (fun t => if Nat.eqb (t_grant t) gi then revoke_t t else t) (upd_grant gi revoke_g s).
@@ -184,7 +190,9 @@ Definition resolve_as (c : cfg) (k : tcls) (r : tokref) (s : st) : resolved :=
                | Some (g, t) =>
                    match t_cls t with
                    | IdTok => RUnknown                     (* a JWT does not decrypt *)
-                   | cl => if tcls_eqb cl k then RTok id g t
+                   | cl => if tcls_eqb cl k then
+                             (* the value decrypts, the session it names is gone: InvalidBranchID propagates *)
+                             if g_removed g then RCrash else RTok id g t
                            else if c_shared_key c then RWrongClass else RUnknown
                    end
                end
@@ -203,8 +211,9 @@ Definition resolve_any (r : tokref) (s : st) : resolved :=
                           otherwise the payload carries the session id and the token resolves *)
                        if t_exp t + 15 <=? now s then RCrash
                        else if t_exp t <? now s then RTooOld
+                       else if g_removed g then RCrash
                        else RTok id g t
-                   | _ => RTok id g t
+                   | _ => if g_removed g then RCrash else RTok id g t
                    end
                end
   end.
@@ -237,13 +246,15 @@ Inductive op :=
 | ApiRevoke (tok : nat) (recursive : bool)
 | RevokeGrant (gi : nat)
 | RevokeClient (gi : nat)
+| RemoveGrant (gi : nat)               (* SessionManager.remove_session(session id of grant gi) *)
+| RevokeUser (gi : nat)                (* revoke_sub_tree(session id of grant gi, 0): the whole user session (logout everywhere) *)
 | Tick (d : Z).
 
 Definition redirect_of (client : pystr) : pystr := PS "https://" ++ client ++ PS ".example.com/cb".
 
 Definition do_authorize (c : cfg) (s : st) (u cl : pystr) (sc : list pystr) : st * out :=
   let gsc := match sc with [] => [] | _ => filter_scopes c cl sc end in
-  let g := mkGrant u cl false (now s + c_grant_exp c) gsc sc (redirect_of cl) (now s + c_authn_valid c) in
+  let g := mkGrant u cl false (now s + c_grant_exp c) gsc sc (redirect_of cl) (now s + c_authn_valid c) false in
   let gi := length (grants s) in
   let s1 := mkSt (now s) (grants s ++ [g]) (toks s) (parsed s) in
   match mint s1 gi Code None None (Some 1) (Some (c_code_mints c)) (c_code_exp c) with
@@ -288,7 +299,8 @@ Definition do_code_process (c : cfg) (s : st) (cl : pystr) (code : nat) (redir :
   | None => (s, OExc)
   | Some (g, t) =>
       let gi := t_grant t in
-      if negb (str_eqb (g_client g) cl) then (s, OErr EInvalidGrant)
+      if g_removed g then (s, OExc)                              (* InvalidBranchID: the session was removed meanwhile *)
+      else if negb (str_eqb (g_client g) cl) then (s, OErr EInvalidGrant)
       else match redir with
            | None => (s, OExc)                                   (* req["redirect_uri"] -> KeyError *)
            | Some r =>
@@ -357,7 +369,8 @@ Definition do_refresh_process (c : cfg) (s : st) (cl : pystr) (tok : nat) (rsc :
   | None => (s, OExc)
   | Some (g, t) =>
       let gi := t_grant t in
-      if negb (str_eqb (g_client g) cl) then (s, OErr EInvalidGrant)
+      if g_removed g then (s, OExc)
+      else if negb (str_eqb (g_client g) cl) then (s, OErr EInvalidGrant)
       else
         let base := if c_oidc c then fscope s gi g (t_based t) else fscope s gi g (Some tok) in
         let sc := match rsc with Some x => x | None => base end in
@@ -451,17 +464,29 @@ Definition do_api_revoke (s : st) (id : nat) (recursive : bool) : st * out :=
   match find_tok id s with
   | None => (s, OSkip)
   | Some (g, t) =>
+      if g_removed g then (s, OExc)                  (* find_token: KeyError, nothing is touched *)
+      else
       let s1 := upd_tok id revoke_t s in
       (if recursive then revoke_derived (t_grant t) id s1 else s1, OOk)
   end.
 
 Definition same_branch (g h : grant) : bool := str_eqb (g_user g) (g_user h) && str_eqb (g_client g) (g_client h).
+Definition same_user (g h : grant) : bool := str_eqb (g_user g) (g_user h).
+(* the grants a node of the database still knows: those below it that were not removed *)
+Definition live_branch (g h : grant) : bool := same_branch g h && negb (g_removed h).
+Definition live_user (g h : grant) : bool := same_user g h && negb (g_removed h).
 (* revoke_client_session: the client node and every grant below it (with all their tokens) *)
 Definition in_branch (g : grant) (s : st) (gi : nat) : bool :=
-  match nth_error (grants s) gi with Some h => same_branch g h | None => false end.
+  match nth_error (grants s) gi with Some h => live_branch g h | None => false end.
 Definition revoke_branch (g : grant) (s : st) : st :=
-  mkSt (now s) (List.map (fun h => if same_branch g h then revoke_g h else h) (grants s))
+  mkSt (now s) (List.map (fun h => if live_branch g h then revoke_g h else h) (grants s))
        (List.map (fun t => if in_branch g s (t_grant t) then revoke_t t else t) (toks s)) (parsed s).
+(* revoke_sub_tree(sid, 0): the user node, every client node below it, every grant below those, all their tokens *)
+Definition in_user (g : grant) (s : st) (gi : nat) : bool :=
+  match nth_error (grants s) gi with Some h => live_user g h | None => false end.
+Definition revoke_user (g : grant) (s : st) : st :=
+  mkSt (now s) (List.map (fun h => if live_user g h then revoke_g h else h) (grants s))
+       (List.map (fun t => if in_user g s (t_grant t) then revoke_t t else t) (toks s)) (parsed s).
 
 Definition step (c : cfg) (s : st) (o : op) : st * out :=
   match o with
@@ -474,11 +499,21 @@ Definition step (c : cfg) (s : st) (o : op) : st * out :=
   | RevokeEP cl r => do_revoke_ep c s cl r
   | ApiRevoke id rec => do_api_revoke s id rec
   | RevokeGrant gi => match nth_error (grants s) gi with
-                      | Some _ => (revoke_grant_at gi s, OOk)
+                      | Some g => if g_removed g then (s, OExc)          (* get_grant: KeyError *)
+                                  else (revoke_grant_at gi s, OOk)
                       | None => (s, OSkip) end
   | RevokeClient gi => match nth_error (grants s) gi with
-                       | Some g => (revoke_branch g s, OOk)
+                       | Some g =>
+                           (* the session id names the path user/client/grant; the client node exists as long as
+                              one grant below it does (also a grant of a later login, also when grant gi is gone) *)
+                           if existsb (live_branch g) (grants s) then (revoke_branch g s, OOk) else (s, OExc)
                        | None => (s, OSkip) end
+  | RemoveGrant gi => match nth_error (grants s) gi with
+                      | Some _ => (upd_grant gi remove_g s, OOk)         (* a second removal finds nothing and returns *)
+                      | None => (s, OSkip) end
+  | RevokeUser gi => match nth_error (grants s) gi with
+                     | Some g => if existsb (live_user g) (grants s) then (revoke_user g s, OOk) else (s, OExc)
+                     | None => (s, OSkip) end
   | Tick d => (mkSt (now s + Z.max 0 d) (grants s) (toks s) (parsed s), OOk)
   end.
 
